@@ -15,6 +15,7 @@ import (
 	"os"
 	"sort"
 	"strconv"
+	"time"
 
 	"github.com/gcash/bchutil/gcs"
 
@@ -58,14 +59,35 @@ func (r *rng) u64() uint64 {
 	return z ^ (z >> 31)
 }
 
-func catch(f func()) (msg string) {
-	defer func() {
-		if e := recover(); e != nil {
-			msg = fmt.Sprint(e)
-		}
+// catch runs f under a watchdog; a panic is returned as text; a call that does not return ends the program with
+// a finding (the stuck goroutine cannot be stopped).
+var current map[string]interface{}
+
+func catch(f func()) string {
+	done := make(chan string, 1)
+	go func() {
+		defer func() {
+			if e := recover(); e != nil {
+				done <- fmt.Sprint(e)
+			}
+		}()
+		f()
+		done <- ""
 	}()
-	f()
-	return
+	select {
+	case msg := <-done:
+		return msg
+	case <-time.After(25 * time.Second):
+		rp := map[string]interface{}{}
+		for k, v := range current {
+			rp[k] = v
+		}
+		violate("C13:query:hang", "a call did not return within 25 s", rp)
+		j, _ := json.Marshal(out)
+		fmt.Println(string(j))
+		os.Exit(0)
+	}
+	return ""
 }
 
 func check(r *rng, n int, p uint8, m uint64) {
@@ -86,6 +108,7 @@ func check(r *rng, n int, p uint8, m uint64) {
 		}
 		return mm
 	}
+	current = desc(nil)
 	var f *gcs.Filter
 	var err error
 	if msg := catch(func() { f, err = gcs.BuildGCSFilter(p, m, key, data) }); msg != "" || err != nil {
@@ -161,6 +184,7 @@ func check(r *rng, n int, p uint8, m uint64) {
 	for _, i := range keys {
 		d := data[i]
 		var a, z, h, y bool
+		current = desc(map[string]interface{}{"queries": []string{hex.EncodeToString(d)}})
 		msg := catch(func() {
 			a, _ = f.Match(key, d)
 			z, _ = f.ZipMatchAny(key, [][]byte{d})
@@ -191,6 +215,14 @@ func check(r *rng, n int, p uint8, m uint64) {
 		for li, l := range [][][]byte{qs, withMember} {
 			w := want || (li == 1 && n > 0)
 			var z, h, y bool
+			current = desc(map[string]interface{}{"queries_count": len(l), "calls": "ZipMatchAny / HashMatchAny / MatchAny"})
+			if len(l) <= 300 {
+				hx := make([]string, len(l))
+				for j := range l {
+					hx[j] = hex.EncodeToString(l[j])
+				}
+				current["queries"] = hx
+			}
 			msg := catch(func() {
 				z, _ = f.ZipMatchAny(key, l)
 				h, _ = f.HashMatchAny(key, l)
@@ -211,10 +243,15 @@ func check(r *rng, n int, p uint8, m uint64) {
 		}
 		if k <= 3 {
 			for _, q := range qs {
-				a, _ := f.Match(key, q)
+				var a bool
+				catch(func() { a, _ = f.Match(key, q) })
 				out.Executions++
 				if refA := inSet[gref.Value(key, F, q)]; a != refA {
-					violate("C13:match:false_positive", "Match disagrees with the reference on a non-member", desc(map[string]interface{}{"query": hex.EncodeToString(q), "Match": a, "reference": refA}))
+					k := "C13:match:false_positive"
+					if refA {
+						k = "C13:match:missed"
+					}
+					violate(k, "Match disagrees with membership of the hashed value in the set of hashed members (independent reference)", desc(map[string]interface{}{"query": hex.EncodeToString(q), "Match": a, "reference": refA}))
 				}
 			}
 		}
